@@ -3,24 +3,30 @@ from translators import tr_c02
 
 PID = "C02"
 CLAIM = True
-MANIFEST_TEXT = ("Lean 4 theorems over an arbitrary field, for every size n and every admissible pivot-magnitude function: "
-                 "the closed forms for n<=3 (translated from densematrix.hh/fmatrix.hh on every run) give det = Matrix.det, "
-                 "A*x = b and A*B = B*A = 1 when det != 0; for the hand-written model of luDecomposition (pivot search, whole-row "
-                 "swap, singularity test, elimination, the three functors) solve returns x with A*x = b whenever it returns (with "
-                 "and without pivoting), singular A gives FMatrixError / determinant 0 in both modes, nonsingular A never fails "
-                 "with pivoting, detLU = Matrix.det, and invert (forward/backward sweeps + reverse column un-permutation) gives "
-                 "A*B = B*A = 1; DiagonalMatrix likewise. The model is run against FieldMatrix/DynamicMatrix/DiagonalMatrix "
-                 "instantiated with a GF(32003) number class (n=1..7, >=80k cases per quick run incl. all 0/1 matrices of size 3 "
-                 "and, in the thorough tier, of size 4) with an independent Laplace-determinant / A*x==b / A*B==I oracle and "
-                 "operand-unchanged checks; double/long double/complex are checked by residual.")
+MANIFEST_TEXT = ("Lean 4 theorems over an arbitrary field, for every size n and every admissible pivot-magnitude function, about "
+                 "the member functions as a whole (DV.C02.determinant / solve / invert: size dispatch read off the source, closed "
+                 "forms for rows()=1,2,3 translated from densematrix.hh/fmatrix.hh on every run, hand-written model of "
+                 "luDecomposition with its three functors otherwise): determinant = Matrix.det (incl. 0 for singular A, both "
+                 "pivoting modes); nonsingular A => solve returns x with A*x = b and invert returns B with A*B = B*A = 1 with "
+                 "pivoting, and without pivoting exactly when all leading principal minors are nonzero; singular A of size >= 4 "
+                 "=> FMatrixError in both modes; the calls without the optional argument behave as pivoting-on (default "
+                 "arguments read off the source); FMatrixHelp::invertMatrix[_retTransposed]; DiagonalMatrix likewise. The model "
+                 "is run against FieldMatrix/DynamicMatrix/DiagonalMatrix instantiated with a GF(32003) number class (n=1..7, "
+                 "DynamicMatrix up to 10; >=80k cases per quick run incl. all 0/1 matrices of size 3 and, in the thorough tier, "
+                 "of size 4) with an independent Laplace-determinant / A*x==b / A*B==I oracle and operand-unchanged checks; "
+                 "double/long double/complex are checked by residual (well-conditioned, permutation+tiny, unit-phase families).")
 MANIFEST_NOTE = ("Trusted: Lean kernel (+propext/Classical.choice/Quot.sound), Mathlib's Matrix.det, tr_c02.py, the fidelity "
                  "of the hand-written LU model (differential execution over GF(p) only; any harmless change of pivot choice is "
                  "invisible there by design), g++/ASan/UBSan. Floating point: the backward-error bound of Gaussian elimination "
-                 "is assumed, not proved; the harness only checks residuals for matrices with condition number <= ~100 "
-                 "(pivoting) or strictly diagonally dominant ones (no pivoting). Singular n<=3, singular DiagonalMatrix and "
-                 "unpivoted break-down on nonsingular A are outside the property and are not compared. SIMD lanes: see C09.")
-TECHNIQUE = ('Lean 4 proof (L*W = P*A0 invariant of in-place LU with partial pivoting, any field, any n) + translator for the '
-             'closed-form blocks + differential correspondence over GF(32003) with independent oracle')
+                 "is assumed, not proved; the harness checks residuals against 100 n^2 eps bounds for matrices with condition "
+                 "number <= ~100 (pivoting; incl. scaled permutations + tiny noise, where only the column maximum is a safe "
+                 "pivot, and complex matrices with purely real/imaginary entries) or strictly diagonally dominant ones (no "
+                 "pivoting). Singular n<=3, singular DiagonalMatrix and unpivoted break-down on nonsingular A are outside the "
+                 "property and are not compared; non-square operands and 0x0 DynamicMatrix (cols() asserts) are outside its "
+                 "domain; #ifdef DUNE_FMatrix_WITH_CHECKING code is not compiled. SIMD lanes: see C09.")
+TECHNIQUE = ('Lean 4 proof (L*W = P*A0 invariant of in-place LU with partial pivoting, any field, any n; top-level theorems '
+             'about the size-dispatching member functions) + translator for the closed-form blocks, the size dispatch and the '
+             'default arguments + differential correspondence over GF(32003) with independent oracle')
 TRANSLATORS = [tr_c02.translate]
 HARNESS = dict(
     sources=["cxx_c02.cc"],
@@ -28,19 +34,22 @@ HARNESS = dict(
     flags=["-O0", "-g1"],
 )
 RULE = ("cases: field gf|f64|ld|c64 x op solve|invert|det|FMatrixHelp::invertMatrix[_retTransposed] x FieldMatrix|"
-        "DynamicMatrix|DiagonalMatrix x n=1..7 x pivoting on/off; GF(32003) matrices from 12 generators (dense, sparse, "
-        "row-permuted triangular, rank-deficient products, dependent/zero rows or columns, vanishing leading minor, pivot "
-        "ties x/p-x, monomial, singular only in the last step, diagonal-ish) plus exhaustive/strided enumeration of 0/1 and "
-        "0/1/-1 matrices; floats: rotations x diag(1..64) x rotations (pivoting) or strictly diagonally dominant (no "
-        "pivoting); distinct = distinct op lines; non-trivial = the oracle decided a clause of the property (value checked, "
-        "or FMatrixError/0 demanded); 'ok trivial' = behaviour unspecified by the property (singular n<=3, singular "
-        "diagonal, unpivoted break-down)")
+        "DynamicMatrix|DiagonalMatrix x n=1..7 (DynamicMatrix also 8..10) x doPivoting true|false|argument omitted; "
+        "GF(32003) matrices from 12 generators (dense, sparse, row-permuted triangular, rank-deficient products, "
+        "dependent/zero rows or columns, vanishing leading minor, pivot ties x/p-x, monomial, singular only in the last "
+        "step, diagonal-ish) plus exhaustive/strided enumeration of 0/1 and 0/1/-1 matrices; floats: rotations x "
+        "diag(1..64) x rotations, scaled permutation + noise of size 1e-6..1e-30 (pivoting), strictly diagonally dominant "
+        "(no pivoting); complex additionally with exact unit phases i^k on rows/columns (purely real/imaginary entries); "
+        "distinct = distinct op lines; non-trivial = the oracle decided a clause of the property (value checked, or "
+        "FMatrixError/0 demanded); 'ok trivial' = behaviour unspecified by the property (singular n<=3, singular "
+        "diagonal, unpivoted break-down); lu_* counters = pivot patterns seen by a statistics-only shadow elimination")
 ASSUMPTIONS = [
     "the LU model lean/DuneVerif/Model/C02.lean is hand-written; its fidelity to densematrix.hh rests on the differential run over GF(32003)",
-    "the closed forms for n<=3 and FMatrixHelp::invertMatrix* are regenerated from the source by tools/translators/tr_c02.py (straight-line grammar; anything else raises)",
+    "the closed forms for n<=3, FMatrixHelp::invertMatrix*, the list of sizes with a closed-form branch and the default arguments of doPivoting are regenerated from the source by tools/translators/tr_c02.py (straight-line grammar; anything else raises)",
     "floating point: classical backward-error bound of Gaussian elimination assumed; residual tolerance 100 n^2 eps relative to ||A|| ||x|| + ||b|| (solve), ||A|| ||B|| (inverse), prod of row 1-norms (determinant)",
     "the theorems need absval x = 0 <-> x = 0 and 0 <= absval x (true for abs on real/complex fields and for the harness' GF(p) class)",
     "'solve and determinant never modify A or b' is decided by the harness (operands compared before/after), the functional model cannot express it",
+    "square operands of size >= 1 only (rows()!=cols() throws FMatrixError by an explicit guard; a 0x0 DynamicMatrix fails the assertion in mat_cols())",
 ]
 TRUSTED = ["g++/libstdc++, ASan/UBSan", "Mathlib v4.33 (Matrix.det, Equiv.Perm.sign, BlockTriangular)",
            "translator tr_c02.py", "harness/cxx_c02.cc (GF(p) class, generators, Laplace/residual oracles) + Driver/C02.lean parsing/printing"]
